@@ -1,6 +1,123 @@
 """Per-property checks: which engines decide which property (DESIGN.md section 5)."""
+import os
+import time
+
 from .kcheck import check_k, k_coverage
 from .report import Report
+
+S_TRUSTED = ["z3 (in-process, one solver, push/pop)", "nl-dump: the real parser and compiler of the current tree, run natively",
+             "lib/nlv/nlsym/vmexec.py (machine specification, tied to the real VM::run by the Kani opcode contracts)",
+             "lib/nlv/nlsym/refint.py (reference semantics, DESIGN.md section 4)", "native replay of every candidate (dev + release)"]
+S_ASSUME = ["holes are non-negative 61-bit literals (negative operands are written 0 - hole)",
+            "bounds: <= 300 executed instructions per path, call depth <= 48, <= 128 paths and <= 8 equality patterns per skeleton, 10 s per solver query",
+            "strings and floats are concrete; symbolic data are integers, booleans and indices",
+            "excluded / unspecified behaviours: DESIGN.md 4.3"]
+
+
+def s_options(tier):
+    if tier == "thorough":
+        return dict(max_steps=600, max_paths=512, pattern_limit=24, solver_timeout_ms=20000, skeleton_budget_s=120)
+    return dict(max_steps=300, max_paths=128, pattern_limit=8, solver_timeout_ms=10000, skeleton_budget_s=30)
+
+
+def run_s(rep, items, tier, kinds=None, wall_budget_s=None):
+    """Run skeletons through nlsym; confirmed candidates become violations (key = skeleton name + kind)."""
+    from .nlsym import run
+    deadline = time.time() + wall_budget_s if wall_budget_s else None
+    results, agg, info = run.run_families(items, s_options(tier), deadline=deadline)
+    replayed = 0
+    samples = []
+    for r in results:
+        if r.get("error"):
+            rep.unreproduced("nlsym failed on skeleton %s: %s" % (r["name"], r["error"][-300:]))
+            continue
+        fs = [f for f in r["findings"] if kinds is None or f["kind"] in kinds]
+        replayed += len(fs)
+        conf = [f for f in fs if f["confirmed"]]
+        for f in conf:
+            text = "%s: %s | %s" % (r["name"], f["detail"], "; ".join((f["native"] or {}).get("why", [])[:3]))
+            body = "# skeleton: %s\n# replay: ./check %s --replay <this file>\n" % (r["skel"].replace("\n", " "), rep.prop)
+            if f.get("variant_source"):
+                body += "### PROGRAM\n%s\n### VARIANT\n%s\n" % (f["source"], f["variant_source"])
+            else:
+                body += "### PROGRAM\n%s\n" % f["source"]
+            body += "### NATIVE\n%r\n" % (f["native"],)
+            rep.violation("skel=%s:%s" % (r["name"], f["kind"]), text, body)
+        if fs and not conf:
+            f = fs[0]
+            rep.unreproduced("candidate on %s (%s: %s; program %r) did not reproduce against the real interpreter" % (
+                r["name"], f["kind"], f["detail"][:200], f["source"][:200]))
+        if len(samples) < 8 and r.get("samples"):
+            s = dict(r["samples"][0])
+            s["name"] = r["name"]
+            s["verdict"] = "violation" if conf else "holds on all explored paths"
+            s["paths"] = r["stats"].get("vm_paths")
+            samples.append(s)
+    cov = {
+        "programs": int(agg.get("programs", 0)),
+        "disagreements_checked": replayed,
+        "samples": samples or [{"note": "no skeleton completed"}],
+        "skeletons": agg.get("skeletons_done"),
+        "skeletons_requested": agg.get("skeletons_requested"),
+        "machine_paths": agg.get("vm_paths"),
+        "path_pairs_compared": agg.get("compared"),
+        "not_compared_masked_or_unsupported": agg.get("not_compared", 0) + agg.get("unsupported", 0),
+        "paths_beyond_step_bound": agg.get("diverged"),
+        "undecided_queries": agg.get("undecided"),
+        "typing_queries": agg.get("typing_queries"),
+        "solver_queries": agg.get("queries"),
+        "solver_s": round(agg.get("solver_s", 0.0), 1),
+        "skeletons_truncated_by_budget": agg.get("truncated"),
+        "skeletons_rejected_by_parser": agg.get("parse_errors", 0),
+        "functions_encoded": ["compiler.rs: compile_ast/compile_statement/compile_expression (executed natively, output taken verbatim)",
+                              "vm.rs: VM::run dispatch loop (as specified in nlsym/vmexec.py, one arm per opcode)",
+                              "builtins.rs: call_* (as specified in nlsym/vmexec.py)"],
+        "bounds": s_options(tier),
+        "engine_info": info,
+        "trusted_base": S_TRUSTED,
+    }
+    return cov, agg
+
+
+def fams(*names, **kw):
+    from .nlsym import skeletons as sk
+    items = []
+    for n in names:
+        items += getattr(sk, "fam_" + n)()
+    return items
+
+
+def rnd(seed, n):
+    from .nlsym import skeletons as sk
+    return sk.fam_random(seed, n)
+
+
+def exh(n):
+    from .nlsym import skeletons as sk
+    return sk.fam_exhaustive(n)
+
+
+def merge_cov(rep, scov, ksum=None):
+    rep.coverage = scov
+    if ksum is not None:
+        kc = k_coverage(ksum)
+        rep.coverage["kani"] = kc
+        rep.coverage["evaluations"] = kc["evaluations"] + scov["programs"]
+        rep.coverage["distinct_nontrivial"] = kc["distinct_nontrivial"] + (scov.get("path_pairs_compared") or 0)
+        rep.coverage["rule"] = kc["rule"] + "; plus nlsym: one evaluation per compiled program, non-trivial = a compared (machine path, reference path) pair"
+        rep.coverage["solver_s"] = round(scov["solver_s"] + kc["solver_s"], 1)
+
+
+def s_property(prop, level, quick_items, thorough_items, k=False, kinds=None, extra_assume=None):
+    def runner(tier, seed):
+        rep = Report(prop, tier, seed, level)
+        items = quick_items(seed) if tier == "quick" else thorough_items(seed)
+        scov, _ = run_s(rep, items, tier, kinds=kinds)
+        ksum = check_k(prop, tier, rep) if k else None
+        merge_cov(rep, scov, ksum)
+        rep.assumptions = S_ASSUME + (extra_assume or [])
+        return rep.finish()
+    return runner
 
 
 def run_C15(tier, seed):
@@ -13,4 +130,38 @@ def run_C15(tier, seed):
     return rep.finish()
 
 
-PROPS = {"C15": run_C15}
+def pairs(pred=None):
+    from .nlsym import skeletons as sk
+    return [x for x in sk.fam_pairs() if pred is None or pred(x[0])]
+
+
+PROPS = {
+    "C15": run_C15,
+    "C01": s_property("C01", "translation_validation",
+                      lambda seed: fams("compose", "control", "calls", "scoping", "sequences", "builtins", "boundary") + exh(2) + rnd(seed, 60),
+                      lambda seed: fams("compose", "control", "calls", "scoping", "sequences", "builtins", "boundary", "operator_forms")
+                      + exh(3) + rnd(seed, 600)),
+    "C02": s_property("C02", "translation_validation",
+                      lambda seed: fams("control", "calls", "scoping", "boundary", "sequences") + exh(2) + rnd(seed, 40),
+                      lambda seed: fams("control", "calls", "scoping", "boundary", "sequences", "compose", "undeclared") + exh(3) + rnd(seed, 600),
+                      kinds=("unsafe", "typing", "residue")),
+    "C09": s_property("C09", "translation_validation",
+                      lambda seed: fams("scoping", "undeclared") + rnd(seed, 30),
+                      lambda seed: fams("scoping", "undeclared", "calls") + exh(3) + rnd(seed, 300)),
+    "C11": s_property("C11", "translation_validation",
+                      lambda seed: fams("control") + rnd(seed, 30),
+                      lambda seed: fams("control") + exh(3) + rnd(seed, 400)),
+    "C12": s_property("C12", "translation_validation",
+                      lambda seed: fams("calls") + rnd(seed, 40),
+                      lambda seed: fams("calls", "scoping") + rnd(seed, 400)),
+    "C13": s_property("C13", "translation_validation",
+                      lambda seed: fams("sequences"),
+                      lambda seed: fams("sequences", "compose") + rnd(seed, 200)),
+    "C10": s_property("C10", "translation_validation",
+                      lambda seed: pairs(),
+                      lambda seed: pairs(),
+                      kinds=("pair",)),
+    "C06": s_property("C06", "model_checking",
+                      lambda seed: fams("operator_forms"),
+                      lambda seed: fams("operator_forms"), k=True),
+}
